@@ -55,6 +55,7 @@ def run(chk):
     texts += cp + progs + [gen_lex.mutate(rng, rng.choice(cp + progs)) for _ in range(600 if quick else 6000)]
     texts += [c["src"] for c in corpus_cases("exec")]
     texts += gen_lex.keyword_texts()
+    texts += gen_lex.scale_texts()
     lines = [f"(lex l{i} tokens {C.hx(t)})" for i, t in enumerate(texts)]
     res, _ = suite.compare(chk, lines, "lex", project=lambda x: x, suite_name="LEX")
     bad = 0
